@@ -103,8 +103,15 @@ def scen_read(word, n_name=None, req=None, limit_stack=False):
     def build(m):
         off = signed(sval(m, z3.BitVec("off", 128)), 128)
         s0 = sval(m, z3.BitVec("inp.0.0", 64))
-        rel = max(0, min(32, off - s0))
-        lines = ["input 0a0b0c0d", "eval %d seek" % rel, "eval offset remain", "stack", "eval drop drop"]
+        e0 = sval(m, z3.BitVec("inp.0.1", 64))
+        # an input as long as the model's (up to 32 bytes), so that a read the model lets succeed or fail for another
+        # reason than missing data does the same natively
+        total = max(32, min(256, e0 - s0))
+        nbytes = (total + 7) // 8
+        # keep the number of bits left after the seek as in the model (that is what decides the read), capped by the input
+        rem = max(0, e0 - off)
+        rel = nbytes * 8 - min(rem, nbytes * 8)
+        lines = ["input " + "".join("%02x" % ((0x0a + 0x11 * i) & 0xff) for i in range(nbytes)), "eval %d seek" % rel, "eval offset remain", "stack", "eval drop drop"]
         if n_name:
             lines.append(cell_push_line(m, n_name))
         if limit_stack:
@@ -272,8 +279,11 @@ def open_close_lemma():
                 L.require(o2, z3.BoolVal(L.result_kind(o2)[0] == "Ok"), "close-bitstr after open-bitstr succeeds")
                 if L.result_kind(o2)[0] == "Ok":
                     L.require(o2, cursor_unchanged(L, pre, S2), "close-bitstr restores the previous input, offset and stash exactly (LIFO)",
-                              cex=lambda m: {"lines": ["input 0a0b0c0d", "eval 8 bits drop 16 bits open-bitstr", "eval offset remain", "stack", "eval drop drop close-bitstr offset remain", "stack"],
-                                             "expect": [("no_panic",)]})
+                              cex=lambda m: {"lines": ["input 010203", "eval 8 bits drop 16 bits open-bitstr",            # outer input: bits [8,24), not read yet
+                                                       "eval |ff| open-bitstr u8 drop close-bitstr", "eval offset remain",   # -> 8 16
+                                                       "eval u8 drop", "eval |ff| open-bitstr u8 drop close-bitstr", "eval offset remain",   # partly read -> 16 8
+                                                       "stack"],
+                                             "expect": [("no_panic",), ("last_result_in", ["ok"]), ("cells_are", [("int", "8"), ("int", "16"), ("int", "16"), ("int", "8")])]})
     return body
 
 
